@@ -44,267 +44,6 @@ module Little :
   val succ_double : uint -> uint
  end
 
-type byte =
-| X00
-| X01
-| X02
-| X03
-| X04
-| X05
-| X06
-| X07
-| X08
-| X09
-| X0a
-| X0b
-| X0c
-| X0d
-| X0e
-| X0f
-| X10
-| X11
-| X12
-| X13
-| X14
-| X15
-| X16
-| X17
-| X18
-| X19
-| X1a
-| X1b
-| X1c
-| X1d
-| X1e
-| X1f
-| X20
-| X21
-| X22
-| X23
-| X24
-| X25
-| X26
-| X27
-| X28
-| X29
-| X2a
-| X2b
-| X2c
-| X2d
-| X2e
-| X2f
-| X30
-| X31
-| X32
-| X33
-| X34
-| X35
-| X36
-| X37
-| X38
-| X39
-| X3a
-| X3b
-| X3c
-| X3d
-| X3e
-| X3f
-| X40
-| X41
-| X42
-| X43
-| X44
-| X45
-| X46
-| X47
-| X48
-| X49
-| X4a
-| X4b
-| X4c
-| X4d
-| X4e
-| X4f
-| X50
-| X51
-| X52
-| X53
-| X54
-| X55
-| X56
-| X57
-| X58
-| X59
-| X5a
-| X5b
-| X5c
-| X5d
-| X5e
-| X5f
-| X60
-| X61
-| X62
-| X63
-| X64
-| X65
-| X66
-| X67
-| X68
-| X69
-| X6a
-| X6b
-| X6c
-| X6d
-| X6e
-| X6f
-| X70
-| X71
-| X72
-| X73
-| X74
-| X75
-| X76
-| X77
-| X78
-| X79
-| X7a
-| X7b
-| X7c
-| X7d
-| X7e
-| X7f
-| X80
-| X81
-| X82
-| X83
-| X84
-| X85
-| X86
-| X87
-| X88
-| X89
-| X8a
-| X8b
-| X8c
-| X8d
-| X8e
-| X8f
-| X90
-| X91
-| X92
-| X93
-| X94
-| X95
-| X96
-| X97
-| X98
-| X99
-| X9a
-| X9b
-| X9c
-| X9d
-| X9e
-| X9f
-| Xa0
-| Xa1
-| Xa2
-| Xa3
-| Xa4
-| Xa5
-| Xa6
-| Xa7
-| Xa8
-| Xa9
-| Xaa
-| Xab
-| Xac
-| Xad
-| Xae
-| Xaf
-| Xb0
-| Xb1
-| Xb2
-| Xb3
-| Xb4
-| Xb5
-| Xb6
-| Xb7
-| Xb8
-| Xb9
-| Xba
-| Xbb
-| Xbc
-| Xbd
-| Xbe
-| Xbf
-| Xc0
-| Xc1
-| Xc2
-| Xc3
-| Xc4
-| Xc5
-| Xc6
-| Xc7
-| Xc8
-| Xc9
-| Xca
-| Xcb
-| Xcc
-| Xcd
-| Xce
-| Xcf
-| Xd0
-| Xd1
-| Xd2
-| Xd3
-| Xd4
-| Xd5
-| Xd6
-| Xd7
-| Xd8
-| Xd9
-| Xda
-| Xdb
-| Xdc
-| Xdd
-| Xde
-| Xdf
-| Xe0
-| Xe1
-| Xe2
-| Xe3
-| Xe4
-| Xe5
-| Xe6
-| Xe7
-| Xe8
-| Xe9
-| Xea
-| Xeb
-| Xec
-| Xed
-| Xee
-| Xef
-| Xf0
-| Xf1
-| Xf2
-| Xf3
-| Xf4
-| Xf5
-| Xf6
-| Xf7
-| Xf8
-| Xf9
-| Xfa
-| Xfb
-| Xfc
-| Xfd
-| Xfe
-| Xff
-
-val of_bits :
-  (bool * (bool * (bool * (bool * (bool * (bool * (bool * bool))))))) -> byte
-
 module Nat :
  sig
   val eqb : nat -> nat -> bool
@@ -435,13 +174,6 @@ module N :
   val to_uint : n -> uint
  end
 
-val to_N : byte -> n
-
-type ascii =
-| Ascii of bool * bool * bool * bool * bool * bool * bool * bool
-
-val byte_of_ascii : ascii -> byte
-
 module Z :
  sig
   val eqb : z -> z -> bool
@@ -451,17 +183,7 @@ module Z :
   val of_N : n -> z
  end
 
-type string =
-| EmptyString
-| String of ascii * string
-
-val list_ascii_of_string : string -> ascii list
-
-val list_byte_of_string : string -> byte list
-
 type bytes = n list
-
-val bs : string -> bytes
 
 val beqb : bytes -> bytes -> bool
 
@@ -585,6 +307,46 @@ val value_error_to_validation : 'a1 result -> 'a1 result
 
 val is_nil : 'a1 list -> bool
 
+val s_SNAPSHOT : text
+
+val s_DIRECTORY : text
+
+val s_REVISION : text
+
+val s_RELEASE : text
+
+val s_pct3B : text
+
+val s_pct25 : text
+
+val s_swh1 : text
+
+val s_colon : text
+
+val s_visit : text
+
+val s_anchor : text
+
+val s_lines : text
+
+val s_path : text
+
+val s_snp : text
+
+val s_rel : text
+
+val s_rev : text
+
+val s_dir : text
+
+val s_cnt : text
+
+val s_ori : text
+
+val s_emd : text
+
+val s_origin : text
+
 val wS_TABLE : n list
 
 val is_space : n -> bool
@@ -635,15 +397,15 @@ val mk_q :
   text -> bytes -> text option -> core option -> core option -> bytes option
   -> (z * z option) option -> qualified result
 
-val k_origin : bytes
+val k_origin : text
 
-val k_visit : bytes
+val k_visit : text
 
-val k_anchor : bytes
+val k_anchor : text
 
-val k_path : bytes
+val k_path : text
 
-val k_lines : bytes
+val k_lines : text
 
 val fIELD_KEYS : text list
 
